@@ -127,7 +127,7 @@ class CoinbaseData(Signature):
         if not (0 <= height <= 0xFFFFFFFF):
             raise ValueError("CoinbaseData height %d is out of range." % height)
 
-        if len(signature) > 256:
+        if len(signature) > 255:
             raise ValueError("Unserializable CoinbaseData")
 
         # height is included to make guarantee Transaction uniqueness. (without height, mining a block with a single
